@@ -9,8 +9,13 @@ package common
 // decided separately on the captured statements (pychecks/c21_pages.py).
 
 import (
+	"context"
+	"errors"
 	"math/big"
 	"reflect"
+	"strings"
+
+	"github.com/uptrace/bun"
 
 	"github.com/formancehq/go-libs/v5/pkg/storage/bun/paginate"
 
@@ -82,9 +87,10 @@ func c21Page(all []c21Item, q ColumnPaginatedQuery[any]) []c21Item {
 			sel[i], sel[j] = sel[j], sel[i]
 		}
 	}
+	// LIMIT pageSize+1 (a crafted page size may be anything: a negative LIMIT is an SQL error, reported by the caller)
 	limit := int(q.PageSize) + 1
-	if len(sel) > limit {
-		sel = sel[:limit]
+	if limit >= 0 && len(sel) > limit {
+		sel = sel[:verifConcretize(limit, 0, len(sel))]
 	}
 	return sel
 }
@@ -111,11 +117,111 @@ func c21SamePage(a, b []c21Item) bool {
 	return true
 }
 
+// ---- the real PaginatedResourceRepository.Paginate over a harness resource
+//
+// In the symbolic build the bun query object is opaque: the builder calls made by the repository and the paginator are
+// recorded by the engine and verifBunScan answers the final Scan with the rows those calls ask for (WHERE <col> <op> ?,
+// ORDER BY, LIMIT, OFFSET on the sorted entity list). That the emitted SQL text means this is the SQL half of the check.
+
+type c21Handler struct{}
+
+func (c21Handler) Schema() queries.EntitySchema {
+	return queries.EntitySchema{Fields: map[string]queries.Field{"id": queries.NewNumericField().Paginated(), "address": queries.NewStringField().Paginated()}}
+}
+func (c21Handler) BuildDataset(RepositoryHandlerBuildContext[any]) (*bun.SelectQuery, error) {
+	return new(bun.SelectQuery), nil
+}
+func (c21Handler) ResolveFilter(ResourceQuery[any], string, string, any) (string, []any, error) {
+	return "", nil, nil
+}
+func (c21Handler) Project(_ ResourceQuery[any], q *bun.SelectQuery) (*bun.SelectQuery, error) {
+	return q, nil
+}
+func (c21Handler) Expand(ResourceQuery[any], string) (*bun.SelectQuery, *JoinCondition, error) {
+	return nil, nil, nil
+}
+
+var c21All []c21Item
+
+func verifBunScan(model any) error {
+	dst := model.(*[]c21Item)
+	sel := append([]c21Item(nil), c21All...) // ascending
+	if w := verifBunStr("Where", 0); w != "" {
+		f := strings.Fields(w) // "<col> <op> ?"
+		pid, ok := verifBunArg("Where", 0).(*big.Int)
+		if len(f) != 3 || !ok || pid == nil {
+			return errors.New("sql: malformed predicate")
+		}
+		kept := sel[:0:0]
+		for _, it := range sel {
+			c := it.ID.Cmp(pid)
+			if (f[1] == "<" && c < 0) || (f[1] == "<=" && c <= 0) || (f[1] == ">" && c > 0) || (f[1] == ">=" && c >= 0) {
+				kept = append(kept, it)
+			}
+		}
+		sel = kept
+	}
+	if o := strings.Fields(verifBunStr("Order", 0)); len(o) == 2 && strings.EqualFold(o[1], "desc") {
+		for i, j := 0, len(sel)-1; i < j; i, j = i+1, j-1 {
+			sel[i], sel[j] = sel[j], sel[i]
+		}
+	}
+	if off := verifBunInt("Offset", 0); off > 0 {
+		if off >= len(sel) {
+			sel = nil
+		} else {
+			sel = sel[verifConcretize(off, 0, len(sel)):]
+		}
+	}
+	if lim := verifBunInt("Limit", 0); lim != -1 {
+		if lim < 0 {
+			return errors.New("sql: LIMIT must not be negative")
+		}
+		if lim < len(sel) {
+			sel = sel[:verifConcretize(lim, 0, len(sel))]
+		}
+	}
+	*dst = sel
+	return nil
+}
+
+func verifBunCountRows() (int, error) { return len(c21All), nil }
+
+// c21Fetch: one page through the real repository (symbolic build); the native replay build has no opaque bun and
+// takes the same steps by hand (paginator.Paginate is skipped there)
+func c21Fetch(all []c21Item, q PaginatedQuery[any]) (*paginate.Cursor[c21Item], error) {
+	if verifIsSymbolic() {
+		c21All = all
+		verifBunReset()
+		repo := NewPaginatedResourceRepository[c21Item, any](c21Handler{}, "id", paginate.OrderDesc)
+		return repo.Paginate(context.Background(), q)
+	}
+	switch v := q.(type) {
+	case ColumnPaginatedQuery[any]:
+		if v.Order == nil {
+			o := paginate.Order(paginate.OrderDesc)
+			v.Order = &o
+		}
+		return newColumnPaginator[c21Item, any](v, "id", queries.NewTypeNumeric()).BuildCursor(c21Page(all, v))
+	case OffsetPaginatedQuery[any]:
+		if v.Order == nil {
+			o := paginate.Order(paginate.OrderDesc)
+			v.Order = &o
+		}
+		return newOffsetPaginator[c21Item, any](v).BuildCursor(c21OffsetPage(all, v))
+	}
+	return nil, errors.New("native replay: initial queries are not replayed")
+}
+
 func c21RunPage(all []c21Item, q ColumnPaginatedQuery[any]) *paginate.Cursor[c21Item] {
-	rows := c21Page(all, q)
-	p := newColumnPaginator[c21Item, any](q, "id", queries.NewTypeNumeric())
-	cur, err := p.BuildCursor(rows)
+	cur, err := c21Fetch(all, q)
 	verifAssert("C21:build-cursor-succeeds", err == nil)
+	if !verifIsSymbolic() {
+		return cur
+	}
+	// the page the repository produced is the specified one
+	spec, _ := newColumnPaginator[c21Item, any](q, "id", queries.NewTypeNumeric()).BuildCursor(c21Page(all, q))
+	verifAssert("C21:repository-page-is-the-specified-page", cur != nil && c21SamePage(cur.Data, spec.Data) && cur.Next == spec.Next && cur.Previous == spec.Previous)
 	return cur
 }
 
@@ -139,6 +245,11 @@ func c21Walk(n int, pageSize uint64, order paginate.Order) {
 			return
 		}
 		cur := c21RunPage(all, q)
+		if step == 0 && verifIsSymbolic() {
+			// the first request carries no cursor: an InitialPaginatedQuery must give the same first page
+			first, err := c21Fetch(all, q.InitialPaginatedQuery)
+			verifAssert("C21:initial-query-gives-the-first-page", err == nil && first != nil && c21SamePage(first.Data, cur.Data) && first.Next == cur.Next && first.Previous == cur.Previous)
+		}
 		verifAssert("C21:page-not-larger-than-page-size", len(cur.Data) <= int(pageSize))
 		verifAssert("C21:no-empty-page-unless-nothing-matches", len(cur.Data) > 0 || n == 0)
 		if step > 0 {
@@ -188,19 +299,18 @@ func c21Walk(n int, pageSize uint64, order paginate.Order) {
 
 func c21OffsetPage(all []c21Item, q OffsetPaginatedQuery[any]) []c21Item {
 	sel := c21Expected(all, *q.Order)
-	if int(q.Offset) >= len(sel) {
+	if q.Offset >= uint64(len(sel)) {
 		return nil
 	}
-	sel = sel[q.Offset:]
-	if q.PageSize > 0 && len(sel) > int(q.PageSize)+1 {
-		sel = sel[:q.PageSize+1]
+	sel = sel[verifConcretize(int(q.Offset), 0, len(sel)):]
+	if q.PageSize > 0 && q.PageSize < uint64(len(sel)) {
+		sel = sel[:verifConcretize(int(q.PageSize)+1, 0, len(sel))]
 	}
 	return sel
 }
 
 func c21RunOffsetPage(all []c21Item, q OffsetPaginatedQuery[any]) *paginate.Cursor[c21Item] {
-	p := newOffsetPaginator[c21Item, any](q)
-	cur, err := p.BuildCursor(c21OffsetPage(all, q))
+	cur, err := c21Fetch(all, q)
 	verifAssert("C21:build-cursor-succeeds", err == nil)
 	return cur
 }
@@ -225,6 +335,10 @@ func c21WalkOffset(n int, pageSize uint64, order paginate.Order) {
 			return
 		}
 		cur := c21RunOffsetPage(all, q)
+		if step == 0 && verifIsSymbolic() {
+			first, err := c21Fetch(all, q.InitialPaginatedQuery)
+			verifAssert("C21:initial-query-gives-the-first-page", err == nil && first != nil && c21SamePage(first.Data, cur.Data) && first.Next == cur.Next && first.Previous == cur.Previous)
+		}
 		verifAssert("C21:page-not-larger-than-page-size", len(cur.Data) <= int(pageSize))
 		if step > 0 {
 			verifAssert("C21:page-after-the-first-has-a-previous-cursor", cur.Previous != "")
